@@ -46,7 +46,7 @@ def matches(known, key):
     return all(key.get(a) == b for a, b in known.get('match', {}).items())
 
 
-def report(pid, rejections, extra_violations=()):
+def report(pid, rejections, extra_violations=(), start=0):
     """Print KNOWN-FINDING / VIOLATION lines; returns number of (unlisted) violations."""
     kn = known_for(pid)
     nviol, seen_known, seen_keys = 0, set(), set()
@@ -63,14 +63,14 @@ def report(pid, rejections, extra_violations=()):
                 print('KNOWN-FINDING: property=%s %s' % (pid, hit[0]['what']))
             continue
         ks = canon_key(key)
-        path = save_replay(pid, '%03d' % nviol, r.exe, extra=dict(key=key, line=r.line_no, event=r.event, tlc=r.tlc_out[-800:]))
+        path = save_replay(pid, '%03d' % (start + nviol), r.exe, extra=dict(key=key, line=r.line_no, event=r.event, tlc=r.tlc_out[-800:]))
         if ks not in seen_keys:
             seen_keys.add(ks)
             print('  rejected: %s at line %s of %s: %s' % (json.dumps(key), r.line_no, r.exe.label, json.dumps(r.event)[:400]))
         print('VIOLATION property=%s replay=%s' % (pid, path))
         nviol += 1
     for msg, exe in extra_violations:
-        path = save_replay(pid, 'x%03d' % nviol, exe, extra=dict(message=msg))
+        path = save_replay(pid, 'x%03d' % (start + nviol), exe, extra=dict(message=msg))
         print('  ' + msg)
         print('VIOLATION property=%s replay=%s' % (pid, path))
         nviol += 1
@@ -125,7 +125,7 @@ def with_suite(execs, tier_, sols=None):
     return list(execs) + sx, len(sx)
 
 
-def run_trace_check(pid, tier_, execs, relax, oracle=False, level='exploration', rule='', assumptions=(), mc=None, extra_cov=None, batch_lines=4000, suite=False):
+def run_trace_check(pid, tier_, execs, relax, oracle=False, level='exploration', rule='', assumptions=(), mc=None, extra_cov=None, batch_lines=4000, suite=False, strict=()):
     t0 = time.time()
     wd = workdir(pid)
     nsuite = 0
@@ -141,6 +141,13 @@ def run_trace_check(pid, tier_, execs, relax, oracle=False, level='exploration',
     nlines, rej = validate_executions(execs, wd, relax=relax, oracle=oracle, batch_lines=batch_lines, extra_env=env)
     REPLAY_CTX.clear(); REPLAY_CTX.update(relax=list(relax), oracle=oracle, known=json.load(open(env['KNOWN'])) if env else None)
     nviol = report(pid, rej, crashes(execs))
+    if strict:      # executions validated with the memo in force (identical key => bit-identical value), no oracle
+        strict = list(strict)
+        run_executions(strict, wd)
+        nl2, rej2 = validate_executions(strict, wd, relax=tuple(r for r in relax if r != 'memo'), oracle=False, batch_lines=batch_lines)
+        REPLAY_CTX.clear(); REPLAY_CTX.update(relax=[r for r in relax if r != 'memo'], oracle=False, known=None)
+        nviol += report(pid, rej2, crashes(strict), start=nviol)
+        nlines += nl2; rej = rej + rej2; execs = execs + strict
     cov = dict(evaluations=sum(len(e.events) for e in execs), distinct_nontrivial=distinct_nontrivial(execs),
                rule=rule, samples=sample_of(execs), traces_validated_against_impl=len(execs),
                trace_lines_accepted=nlines, rejections=len(rej))
@@ -213,8 +220,9 @@ def c12(tier_):
     for i in range(20 if tier_ == 'quick' else 200):
         execs.append(gen.gen_registry_random(rng, steps=120 if tier_ == 'quick' else 300, apis=('cxx', 'c') if i % 2 else ('cxx',)))
     ind = apalache_inductive() if tier_ == 'thorough' else None
-    return run_trace_check('C12', tier_, execs, suite=True, relax=('live', 'memo'), level='model_checking', extra_cov=(dict(inductive_invariant_apalache=ind, three_handle_instance=sim) if ind else None),
-        rule='every transition of the bounded registry model (2 handles; 2 precisions x 1 handle; quick: reduced alphabet Lite, thorough: full alphabet) replayed on the real library with a concretisation drawn by seed; thorough: additionally the 3-handle Lite instance, model-checked in full by TLC, and 600 random behaviours of it (TLC -simulate, 300 steps each) replayed; plus random long histories over 4 similar handles and both precisions; distinct = distinct (call, arguments) shapes executed',
+    twins = [gen.gen_twins(random.Random(seed() + 101 * i + j), sol) for i, sol in enumerate(NONFIX) for j in range(1 if tier_ == 'quick' else 4)]
+    return run_trace_check('C12', tier_, execs, suite=True, relax=('live', 'memo'), level='model_checking', strict=twins, extra_cov=(dict(inductive_invariant_apalache=ind, three_handle_instance=sim) if ind else None),
+        rule='every transition of the bounded registry model (2 handles; 2 precisions x 1 handle; quick: reduced alphabet Lite, thorough: full alphabet) replayed on the real library with a concretisation drawn by seed; thorough: additionally the 3-handle Lite instance, model-checked in full by TLC, and 600 random behaviours of it (TLC -simulate, 300 steps each) replayed; plus random long histories over 4 similar handles and both precisions; plus, per solution, twin histories (the same evaluations through a handle, a second handle of the same solution and the re-initialised first one, at the defaults and with every parameter set: bit-identical by the memo); distinct = distinct (call, arguments) shapes executed',
         assumptions=COMMON_ASSUME, mc=dict(states=st, transitions=tr, distinct_transitions_replayed=uniq, exhaustive=True))
 
 
@@ -238,7 +246,11 @@ def c11(tier_):
     # evaluated again at the same points -- judged by the numeric oracle
     for sol in ALLVAL:
         execs.append(gen.gen_values(rng, sol, nassign=2 if tier_ == 'quick' else 6, npts=1))
-    return run_trace_check('C11', tier_, execs, suite=True, relax=('live', 'memo'), oracle=True, level='model_checking',
+    # ... and by the memo where the oracle does not reach (parameter combinations outside the physical relation, e.g. sod_1d's mu
+    # set without Gamma): after evaluations, parameters are changed, evaluated, and a fresh handle given the same values directly
+    # must answer bit-identically
+    pur = [gen.gen_purity(random.Random(seed() + 211 * i), sol, nev=4, noise=6)[0] for i, sol in enumerate(NONFIX)]
+    return run_trace_check('C11', tier_, execs, suite=True, relax=('live', 'memo'), oracle=True, level='model_checking', strict=pur,
         rule='(a) every transition of the 1-handle bounded model (all set/get/init_param/purge/sanity/set_vec/get_vec/display steps with valid and invalid names, marker values, vectors of length 0..2) replayed on the real library; (b) seeded random parameter-store histories on every catalogue entry (the two self-test fixtures with their failing init_var included) in both precisions (arbitrary finite values incl. the exact marker, invalid names, vectors of length 0..8); every read-back is compared with the specification map by TLC; (c) on every solution with an oracle every parameter is set, evaluators are called, parameters are set again and the evaluators called at the same points, judged by the numeric oracle (evaluators use the values last set). distinct = distinct (call, arguments) shapes',
         assumptions=COMMON_ASSUME + ['values are either exactly the marker or not within 1e-6 relative of it (the 1e-10 window of sanity_check is not observable)'],
         mc=dict(states=s, transitions=t, distinct_transitions_replayed=nu, exhaustive=True, model_actions=replay.action_counts(edges)))
@@ -275,7 +287,7 @@ def c14(tier_):
         if n not in names:
             names.append(n)
     shutil.rmtree(wd, ignore_errors=True)
-    execs = gen.gen_catalogue(names)
+    execs = gen.gen_catalogue(names) + gen.gen_reinit_same(names)
     return run_trace_check('C14', tier_, execs, suite=True, relax=('live', 'memo'), level='model_checking',
         rule='finite and complete: every name printed by masa_printid in either precision and every entry of the frozen catalogue: printid (order, uniqueness, both precisions equal), init, get_name, dimension, sanity_check, init_param, and every evaluator of the capability set at an interior point with default parameters (each gradient direction), both precisions. distinct = distinct (call, arguments) shapes',
         assumptions=COMMON_ASSUME, mc=dict(states=len(names), transitions=sum(len(e.script) for e in execs), exhaustive=True))
@@ -620,6 +632,16 @@ def c13(tier_):
         strings.append((n[:k] + rng.choice('\r\n\x01\x10\x19\x1f') + n[k:], False, 'control-character'))
         # a NUL inside the std::string (the C++ interface takes the whole string, not its C prefix)
         strings.append((n + '\x00' + rng.choice(['', '_2d', 'x', n]), False, 'embedded-nul'))
+    # "however often they occur": separator runs of 64 ... 4100 characters (beyond any fixed-size buffer or length limit) in
+    # front of, inside and behind a name; the same with one wrong character (still no catalogue name)
+    lrng = random.Random(seed() + 5)
+    for n in names:
+        for ln in lrng.sample([64, 200, 255, 256, 257, 300, 1000, 4100], 3 if tier_ == 'quick' else 8):
+            run = ''.join(lrng.choice('- ') for _ in range(ln))
+            k = lrng.choice([0, len(n), lrng.randrange(1, len(n))])
+            strings.append((n[:k] + run + n[k:], True, 'long-run'))
+        run = ''.join(lrng.choice('- ') for _ in range(lrng.choice([256, 300, 1000])))
+        strings.append((n + run + 'x', False, 'long-negative'))
     rng.shuffle(strings)
     execs = []
     chunk = 400
